@@ -172,6 +172,27 @@ pub fn body(_name: &'static str, _k: u32) -> Raw {
     })
 }
 
+/// Install the script of the next call on this thread (used by drivers that call fixtures directly).
+pub fn set_script(s: CallScript) {
+    CTX.with(|c| {
+        let mut c = c.borrow_mut();
+        c.script = s;
+        c.executed = false;
+        c.body_ret = 0;
+        c.mid = None;
+        c.inv_consults.clear();
+        c.cif_consults.clear();
+    });
+}
+
+/// (did the body run since set_script, its result)
+pub fn take_exec() -> (bool, i64) {
+    CTX.with(|c| {
+        let c = c.borrow();
+        (c.executed, c.body_ret)
+    })
+}
+
 pub fn consult_inv(_name: &'static str, key: &String, v: Out) -> bool {
     CTX.with(|c| {
         let mut c = c.borrow_mut();
